@@ -60,6 +60,13 @@ theorem decode_encode (m : Msg) (hb : Built m) (hw : WillOk m) (ctr : UInt64) (e
       absMsg d.msg = absMsg e.msg :=
   built_round_trip hb hw ctr e he hwf rest
 
+/-- `Encode` does not refuse a legitimate message: if the fields of a built message —
+with an identifier assigned where MQTT requires one and none was set (`assign`) — form a
+well-formed packet, `Encode` into `Len()` bytes succeeds and leaves exactly that message. -/
+theorem encode_succeeds (m : Msg) (hb : Built m) (ctr : UInt64) (hwf : Wire.WF (absMsg (assign m ctr))) :
+    ∃ e, encode m ctr m.len = .ok e ∧ e.msg = assign m ctr :=
+  built_encode_succeeds hb ctr hwf
+
 /-- An automatically assigned identifier never makes the packet malformed: a
 built SUBSCRIBE / UNSUBSCRIBE / PUBLISH without identifier encodes with a
 non-zero identifier in the wire form (for every counter value). -/
